@@ -17,6 +17,7 @@ CONSTANTS
   WithRejects = FALSE
   ExportOneIn = 1
   RecoveryCrashes = FALSE
+  Batch = FALSE
 INVARIANTS NoViolation CacheCounterExact ChunksAbut DurableIsPrefix Export 
 VIEW View
 ALIAS Alias
